@@ -789,4 +789,95 @@ theorem drop_inv (s : Store) (inv : Inv s) (n : String) (e0 : CatEntry) (h : s.c
     exact inv.dvTables e (hdvkeep e he).1
   · rw [f1, f9]; exact inv.dvFileTid
 
+/-! ### reopen keeps the invariant -/
+
+/-- the guard under which the id generators re-derived by a reopen stay above every row-set id a
+delete vector names: a stale DV (its row-set was compacted away) must be below some live row-set -/
+def ReopenGuard (s : Store) : Prop :=
+  ∀ e ∈ s.dvs, (e.tid, e.rs) ∉ s.rowsets → ∃ k ∈ s.rowsets, e.rs ≤ k.2
+
+theorem reopen_inv (s : Store) (inv : Inv s) (guard : ReopenGuard s) :
+    ∃ s', s.reopen = .ok s' ∧ Inv s' ∧ (∀ n, s'.abs n = s.abs n) ∧ s'.cat = s.cat ∧ s'.tables = s.tables ∧
+      ∀ t, s'.scan t = s.scan t := by
+  have h := inv.reopenHyp
+  have hfresh := bootFold_fresh (replay s.manifest)
+  have hdirs : ∀ k ∈ s.rowsets, lookup k (s.dirs.filter fun x => s.rowsets.contains x.1) = lookup k s.dirs :=
+    fun k hk => lookup_filter (fun a => s.rowsets.contains a) k (by simpa using hk) s.dirs
+  have a1 : (s.rowsets.any fun k => (lookup k.1 s.tables).isNone) = false :=
+    any_false_of_forall _ _ fun k hk => by
+      have := h.rsTables k hk
+      cases hl : lookup k.1 s.tables <;> simp_all
+  have a2 : (s.rowsets.any fun k => (lookup k (s.dirs.filter fun x => s.rowsets.contains x.1)).isNone) = false :=
+    any_false_of_forall _ _ fun k hk => by
+      rw [hdirs k hk]
+      have := h.dirs k hk
+      cases hl : lookup k s.dirs <;> simp_all
+  have a3 : ((s.dvs.map DvE.key).any fun k => (lookup k.1 s.tables).isNone) = false :=
+    any_false_of_forall _ _ fun k hk => by
+      obtain ⟨e, he, rfl⟩ := List.mem_map.mp hk
+      have := h.dvTables e he
+      cases hl : lookup e.key.1 s.tables <;> simp_all [DvE.key]
+  have hrw := bootFold_rewrite (replay s.manifest) inv.sync.ok
+  have hnm := rewriteOps_noMarks (replay s.manifest) inv.sync.ok
+  have hrep := replay_txn _ hnm
+  have hcl : Closed (txn (rewriteOps (bootFold (replay s.manifest)))) :=
+    (replay_append_txn [] _ (by simp [Closed]) hnm).2
+  unfold Store.reopen
+  simp only [h.ok, h.rs, h.tables, h.dv, a1, a2, a3, Bool.false_eq_true, if_false,
+    openDvs_eq s.dvFiles s.dvs h.dvFiles]
+  refine ⟨_, rfl, ?_, ?_, inv.sync.cat, rfl, ?_⟩
+  · have hman : replay (txn (List.map (fun k => Rec.addRowSet k.fst k.snd) s.rowsets ++
+        List.map (fun k => Rec.addDV k.fst k.snd.fst k.snd.snd) (List.map DvE.key s.dvs) ++
+        (bootFold (replay s.manifest)).tableOps)) = rewriteOps (bootFold (replay s.manifest)) := by
+      rw [← h.rs, ← h.dv]; exact hrep
+    have hcl' : Closed (txn (List.map (fun k => Rec.addRowSet k.fst k.snd) s.rowsets ++
+        List.map (fun k => Rec.addDV k.fst k.snd.fst k.snd.snd) (List.map DvE.key s.dvs) ++
+        (bootFold (replay s.manifest)).tableOps)) := by
+      rw [← h.rs, ← h.dv]; exact hcl
+    refine ⟨⟨?_, ?_, ?_, by simp⟩,
+      Sync.mk' (b := bootFold (rewriteOps (bootFold (replay s.manifest)))) (by show bootFold (replay _) = _; rw [hman]) hcl'
+        hrw.2.2.2.1 hrw.1 (by rw [hrw.2.1]; exact inv.sync.tables) (by rw [hrw.2.2.2.2.1]; exact inv.sync.rs)
+        (by rw [hrw.2.2.2.2.2]; exact inv.sync.dv),
+      ?_, inv.dvFiles, inv.dvFilesLive, ?_, ?_, ?_, ?_, ?_, ?_, inv.rsTables, inv.dvTables, ?_⟩
+    · intro x hx
+      have := (List.mem_filter.mp hx).2
+      exact hfresh.1 x.1 (by rw [h.rs]; simpa using this)
+    · intro k hk; exact hfresh.1 k (by rw [h.rs]; exact hk)
+    · intro e he
+      show e.rs < (bootFold (replay s.manifest)).nextRs
+      by_cases hl : (e.tid, e.rs) ∈ s.rowsets
+      · exact hfresh.1 _ (by rw [h.rs]; exact hl)
+      · obtain ⟨k, hk, hle⟩ := guard e he hl
+        have := hfresh.1 k (by rw [h.rs]; exact hk)
+        omega
+    · intro k hk
+      show (lookup k (s.dirs.filter fun x => s.rowsets.contains x.1)).isSome
+      rw [hdirs k hk]; exact inv.dirs k hk
+    · intro e he
+      exact hfresh.2.1 e.key (by rw [h.dv]; exact List.mem_map_of_mem he)
+    · show ∀ e ∈ (bootFold (replay s.manifest)).cat.entries, _
+      rw [inv.sync.cat]; exact inv.catIds
+    · show ((bootFold (replay s.manifest)).cat.entries.map _).Nodup
+      rw [inv.sync.cat]; exact inv.idsNodup
+    · show ((bootFold (replay s.manifest)).cat.entries.map _).Nodup
+      rw [inv.sync.cat]; exact inv.namesNodup
+    · show ∀ e ∈ (bootFold (replay s.manifest)).cat.entries, _
+      rw [inv.sync.cat]; exact inv.catTab
+    · show ∀ x ∈ s.tables, x.1 < (bootFold (replay s.manifest)).cat.nextId
+      rw [inv.sync.cat]; exact inv.tabIds
+    · show ∀ x ∈ s.dvFiles, x.1.1 < (bootFold (replay s.manifest)).cat.nextId
+      rw [inv.sync.cat]; exact inv.dvFileTid
+  · intro n
+    apply abs_congr
+    · exact h.cat
+    · rfl
+    · rfl
+    · rfl
+    · exact hdirs
+  · intro t
+    apply scan_congr
+    · rfl
+    · rfl
+    · intro rs hrs; exact hdirs _ hrs
+
 end RlModel
